@@ -105,16 +105,13 @@ func (c15) Gen(r *sim.Rand, c *sim.Case, tier string) {
 				tag++
 				nt := sim.Str(fmt.Sprintf("Sec %d⟦%d⟧", tag%4, tag))
 				a = append(a, sim.Op{K: "rm.para", I: []int{-1, 0, 7}}, sim.Op{K: "heading", S: []sim.Str{nt}, I: []int{r.Range(1, 3)}})
-				if (tocMax == 3 && !tocTwice) || Wild {
+				if !tocTwice || Wild {
 					a = append(a, sim.Op{K: "toc.update"})
 				}
 			}
 		case x < 17:
 			if tocMax == 0 {
-				tocMax = r.Range(1, 9)
-				if !Wild {
-					tocMax = 3 // UpdateTOC rebuilds with the default level (listed finding): the search lane asks for that level
-				}
+				tocMax = r.Range(1, 9) // (UpdateTOC used to rebuild with the default level - repaired, repo a369783)
 				a = append(a, sim.Op{K: "toc.gen", S: []sim.Str{"Contents"}, I: []int{tocMax, 15}})
 			} else if r.Chance(0.3) {
 				// a table of contents is generated again, for another level: it lists the headings up to THAT level
@@ -122,8 +119,8 @@ func (c15) Gen(r *sim.Rand, c *sim.Case, tier string) {
 				// after that is not for this check to say, so no update follows)
 				tocMax, tocTwice = r.Range(1, 9), true
 				a = append(a, sim.Op{K: "toc.gen", S: []sim.Str{"Contents"}, I: []int{tocMax, 15}})
-			} else if (tocMax == 3 && !tocTwice) || Wild {
-				a = append(a, sim.Op{K: "toc.update"}) // (after a level other than the default: listed finding toc-update-uses-default-level)
+			} else if !tocTwice || Wild {
+				a = append(a, sim.Op{K: "toc.update"})
 			}
 		case x < 18:
 			a = append(a, sim.Op{K: "obs", I: []int{1}})
